@@ -37,6 +37,12 @@ def instances(tier, rng):
                 extra.append({"sws": sorted(set(u["pweights"])) + [1]})
                 extra.append({"plr": [[0, 2], [3, 20]], "plf": [[1, 1], [2, 1]]})
                 extra.append({"plr": [[0, 1], [2, 20]], "plf": [[2, 1], [1, 1]], "sws": sorted(set(u["pweights"])) + [1]})   # both
+                # path lengths measured by a length attribute: zero lengths, missing lengths; node mode (links count 0)
+                extra.append({"plr": [[0, 4], [5, 60]], "plf": [[2, 1], [1, 1]], "lenattr": True,
+                              "elen": [rng.choice([0, 0, 1, 2, 5, vlib.NONE]) for _ in u["edges"]]})
+                extra.append({"mode": "node", "plr": [[0, 5], [6, 60]], "plf": [[1, 1], [3, 1]], "lenattr": True,
+                              "nlen": [rng.choice([0, 1, 2, 4, vlib.NONE]) for _ in u["nodes"]]})
+                extra.append({"mode": "node", "plr": [[0, 6], [7, 60]], "plf": [[2, 1], [1, 1]]})
             es = C.route_edges(rng.choice(u["proutes"]))
             extra.append({"cons": [es[:2]]})
             for cfg in feats + rng.sample(extra, 2 if quick else 5):
